@@ -218,7 +218,19 @@ theorem updateOuts_append_of_disjoint (c o : Outs) (nd : (o.map (·.1)).Nodup)
 
 /-! ### sorting -/
 
-theorem sortOuts_perm (o : Outs) : (sortOuts o).Perm o := List.mergeSort_perm _ _
+theorem insertOut_perm (nv : String × Val) (l : Outs) : (insertOut nv l).Perm (nv :: l) := by
+  induction l with
+  | nil => exact List.Perm.refl _
+  | cons mw t ih =>
+    unfold insertOut
+    split
+    · exact List.Perm.refl _
+    · exact (ih.cons mw).trans (List.Perm.swap _ _ _)
+
+theorem sortOuts_perm (o : Outs) : (sortOuts o).Perm o := by
+  induction o with
+  | nil => exact List.Perm.nil
+  | cons nv t ih => exact (insertOut_perm nv _).trans (ih.cons nv)
 
 theorem sortOuts_length (o : Outs) : (sortOuts o).length = o.length := (sortOuts_perm o).length_eq
 
@@ -317,11 +329,14 @@ theorem placeOutputs_spec (mapping : List (String × Nat)) (S : Outs) (off : Nat
   | nil => simp [placeOutputs, arrsOf, scalarsOf]
   | cons nv t ih =>
     obtain ⟨n, v⟩ := nv
-    have h0 : alook n mapping = some off := by simpa using hm 0 (by simp)
+    have h0 : alook n mapping = some off := by
+      have := hm 0 (by simp)
+      simpa only [List.getElem_cons_zero, Nat.add_zero] using this
     have hm' : ∀ i (h : i < t.length), alook (t[i].1) mapping = some (off + 1 + i) := by
       intro i h
       have := hm (i + 1) (by simp; omega)
-      simpa [Nat.add_assoc, Nat.add_comm 1] using this
+      simp only [List.getElem_cons_succ] at this
+      rw [this]; congr 1; omega
     cases v with
     | scalar r =>
       have := ih (off + 1) arrs0 hm' (fun ja h => by have := ha ja h; omega)
@@ -443,5 +458,671 @@ theorem appendOutput_layout (e : FEntry) (L outs : Outs) (hL : Layout e L)
     · refine ⟨by simp, ?_, ?_⟩
       · simp [scalarsOf_append, hL.scal]
       · simp [arrsOf_append, hL.arrs]
+
+/-! ### Decoding a laid-out entry (`update_from_file`) -/
+
+theorem scalPairs_sublist (L : Outs) : (scalPairs L).Sublist L := by
+  induction L with
+  | nil => exact List.Sublist.slnil
+  | cons nv t ih =>
+    obtain ⟨n, v⟩ := nv
+    cases v with
+    | scalar r => exact ih.cons_cons _
+    | arr a => exact ih.cons _
+
+theorem arrPairs_sublist (L : Outs) : (arrPairs L).Sublist L := by
+  induction L with
+  | nil => exact List.Sublist.slnil
+  | cons nv t ih =>
+    obtain ⟨n, v⟩ := nv
+    cases v with
+    | scalar r => exact ih.cons _
+    | arr a => exact ih.cons_cons _
+
+theorem scal_arr_perm (L : Outs) : (scalPairs L ++ arrPairs L).Perm L := by
+  induction L with
+  | nil => exact List.Perm.nil
+  | cons nv t ih =>
+    obtain ⟨n, v⟩ := nv
+    cases v with
+    | scalar r => exact ih.cons _
+    | arr a => exact List.perm_middle.trans (ih.cons _)
+
+theorem named_arrays (P : List String) (T : Outs) :
+    (arrsOf P.length T).map (fun ja => ((P ++ T.map (·.1))[ja.1]?).map (fun n => (n, Val.arr ja.2)))
+      = (arrPairs T).map some := by
+  induction T generalizing P with
+  | nil => simp [arrsOf, arrPairs]
+  | cons nv t ih =>
+    obtain ⟨n, v⟩ := nv
+    have hP : P ++ ((n, v) :: t).map (·.1) = (P ++ [n]) ++ t.map (·.1) := by simp
+    have hlen : (P ++ [n]).length = P.length + 1 := by simp
+    have ih' := ih (P ++ [n])
+    rw [hlen] at ih'
+    cases v with
+    | scalar r =>
+      simp only [arrsOf, arrPairs]
+      rw [hP]; exact ih'
+    | arr a =>
+      have hP' : P ++ n :: t.map (·.1) = (P ++ [n]) ++ t.map (·.1) := by simp
+      simp only [arrsOf, arrPairs, List.map_cons]
+      rw [hP', ih']
+      congr 1
+      simp
+
+theorem scalNames_filter (L : Outs) (nd : (L.map (·.1)).Nodup) :
+    (L.map (·.1)).filter (fun k => !((arrPairs L).any (fun nv => nv.1 == k))) = (scalPairs L).map (·.1) := by
+  induction L with
+  | nil => rfl
+  | cons nv t ih =>
+    obtain ⟨n, v⟩ := nv
+    simp only [List.map_cons, List.nodup_cons] at nd
+    have hnot : (arrPairs t).any (fun nv => nv.1 == n) = false := by
+      rw [List.any_eq_false]
+      intro nv hnv hh
+      have : nv.1 = n := by simpa using hh
+      exact nd.1 (this ▸ List.mem_map.mpr ⟨nv, (arrPairs_sublist t).subset hnv, rfl⟩)
+    cases v with
+    | scalar r =>
+      simp only [arrPairs, scalPairs, List.map_cons, List.filter_cons, hnot, Bool.not_false, if_true]
+      rw [ih nd.2]
+    | arr a =>
+      simp only [arrPairs, scalPairs, List.map_cons, List.filter_cons, List.any_cons, beq_self_eq_true,
+        Bool.true_or, Bool.not_true, Bool.false_eq_true, if_false]
+      rw [← ih nd.2]
+      apply List.filter_congr
+      intro k hk
+      have : (n == k) = false := by
+        simp only [beq_eq_false_iff_ne, ne_eq]
+        intro e; exact nd.1 (e ▸ hk)
+      simp [this]
+
+theorem zip_scalars (L : Outs) :
+    (((scalPairs L).map (·.1)).zip (scalarsOf L)).map (fun nr => (nr.1, Val.scalar nr.2)) = scalPairs L := by
+  induction L with
+  | nil => rfl
+  | cons nv t ih =>
+    obtain ⟨n, v⟩ := nv
+    cases v with
+    | scalar r => simp [scalPairs, scalarsOf, ih]
+    | arr a => simpa [scalPairs, scalarsOf] using ih
+
+/-- Reading back one laid-out entry with distinct names yields exactly its pairs (scalars first,
+    then arrays): nothing raises, nothing is lost, kinds and shapes are kept. -/
+theorem decodeEntry_layout (e : FEntry) (L : Outs) (hL : Layout e L) (nd : (L.map (·.1)).Nodup) :
+    decodeEntry e = some (scalPairs L ++ arrPairs L) := by
+  have hnamed := named_arrays [] L
+  simp only [List.length_nil, List.nil_append] at hnamed
+  have nds : ((scalPairs L).map (·.1)).Nodup := ((scalPairs_sublist L).map _).nodup nd
+  have nda : ((arrPairs L).map (·.1)).Nodup := ((arrPairs_sublist L).map _).nodup nd
+  have hA : updateOuts [] (arrPairs L) = arrPairs L := by
+    rw [updateOuts_append_of_disjoint [] _ nda (by simp)]; simp
+  have hS : updateOuts [] (scalPairs L) = scalPairs L := by
+    rw [updateOuts_append_of_disjoint [] _ nds (by simp)]; simp
+  have hdisj : ∀ n ∈ (arrPairs L).map (·.1), n ∉ (scalPairs L).map (·.1) := by
+    intro n hn hs
+    have hp := ((scal_arr_perm L).map (·.1)).nodup_iff.mpr nd
+    simp only [List.map_append] at hp
+    exact (List.nodup_append.mp hp).2.2 n hs n hn rfl
+  unfold decodeEntry
+  rw [hL.arrs, hL.keys, hnamed, optAll_map_some]
+  simp only [hA, hL.scal, scalNames_filter L nd, zip_scalars, hS]
+  rw [updateOuts_append_of_disjoint _ _ nda hdisj]
+
+theorem alook_decoded (L : Outs) (nd : (L.map (·.1)).Nodup) (k : String) :
+    alook k (scalPairs L ++ arrPairs L) = alook k L :=
+  alook_perm (scal_arr_perm L) (((scal_arr_perm L).map _).nodup_iff.mpr nd) k
+
+/-! ### Database facts -/
+
+/-- Two output dicts define the same finite map (same names, same values and kinds). -/
+def OutsEq (a b : Outs) : Prop := ∀ n, alook n a = alook n b
+
+/-- Same points in the same order, each with the same outputs. -/
+def DbEq (a b : Db) : Prop := List.Forall₂ (fun x y => x.1 = y.1 ∧ OutsEq x.2 y.2) a b
+
+theorem DbEq.points {a b : Db} (h : DbEq a b) : a.map (·.1) = b.map (·.1) := by
+  unfold DbEq at h
+  induction h with
+  | nil => rfl
+  | cons h _ ih => simp [h.1, ih]
+
+/-- What a Python dict of dicts guarantees: distinct points, distinct names at each point. -/
+structure DbWF (db : Db) : Prop where
+  pts : (db.map (·.1)).Nodup
+  names : ∀ po ∈ db, (po.2.map (·.1)).Nodup
+
+theorem dbIndex_spec {p : Pt} {db : Db} {i : Nat} (h : dbIndex p db = some i) :
+    ∃ outs, db[i]? = some (p, outs) ∧ alook p db = some outs := by
+  induction db generalizing i with
+  | nil => simp [dbIndex] at h
+  | cons qc t ih =>
+    obtain ⟨q, c⟩ := qc
+    unfold dbIndex at h
+    by_cases e : q = p
+    · subst e
+      simp only [if_true, Option.some.injEq] at h
+      subst h
+      exact ⟨c, by simp, by simp [alook_cons]⟩
+    · simp only [e, if_false, Option.map_eq_some_iff] at h
+      obtain ⟨j, hj, rfl⟩ := h
+      obtain ⟨outs, h1, h2⟩ := ih hj
+      exact ⟨outs, by simpa using h1, by simp [alook_cons, e, h2]⟩
+
+theorem dbIndex_of_mem {p : Pt} {db : Db} (h : p ∈ db.map (·.1)) : ∃ i, dbIndex p db = some i := by
+  induction db with
+  | nil => simp at h
+  | cons qc t ih =>
+    obtain ⟨q, c⟩ := qc
+    unfold dbIndex
+    by_cases e : q = p
+    · exact ⟨0, by simp [e]⟩
+    · simp only [List.map_cons, List.mem_cons] at h
+      rcases h with h | h
+      · exact absurd h.symm e
+      · obtain ⟨i, hi⟩ := ih h
+        exact ⟨i + 1, by simp [e, hi]⟩
+
+theorem dbIndex_of_getElem {db : Db} (nd : (db.map (·.1)).Nodup) {i : Nat} {p : Pt} {outs : Outs}
+    (h : db[i]? = some (p, outs)) : dbIndex p db = some i := by
+  induction db generalizing i with
+  | nil => simp at h
+  | cons qc t ih =>
+    obtain ⟨q, c⟩ := qc
+    simp only [List.map_cons, List.nodup_cons] at nd
+    unfold dbIndex
+    cases i with
+    | zero =>
+      simp only [List.getElem?_cons_zero, Option.some.injEq, Prod.mk.injEq] at h
+      simp [h.1]
+    | succ j =>
+      simp only [List.getElem?_cons_succ] at h
+      have hp : p ∈ t.map (·.1) := List.mem_map.mpr ⟨(p, outs), List.mem_of_getElem? h, rfl⟩
+      have e : ¬ q = p := fun e => nd.1 (e ▸ hp)
+      simp [e, ih nd.2 h]
+
+theorem dbWF_getElem {db : Db} (wf : DbWF db) {i : Nat} {p : Pt} {outs : Outs}
+    (h : db[i]? = some (p, outs)) : (outs.map (·.1)).Nodup :=
+  wf.names (p, outs) (List.mem_of_getElem? h)
+
+/-! ### File-level invariants -/
+
+/-- The entry at index `i` is laid out by a list `L` with distinct names whose pairs are all
+    current outputs of the `i`-th database point (the file may lag behind the database). -/
+def EntryOK (db : Db) (i : Nat) (e : FEntry) : Prop :=
+  ∃ p outs L, db[i]? = some (p, outs) ∧ e.x = p ∧ Layout e L ∧ (L.map (·.1)).Nodup ∧
+    ∀ n v, alook n L = some v → alook n outs = some v
+
+/-- The entry at index `i` holds exactly the outputs of the `i`-th database point. -/
+def EntryComplete (db : Db) (i : Nat) (e : FEntry) : Prop :=
+  ∃ p outs L, db[i]? = some (p, outs) ∧ e.x = p ∧ Layout e L ∧ (L.map (·.1)).Nodup ∧ OutsEq L outs
+
+theorem EntryComplete.ok {db : Db} {i : Nat} {e : FEntry} (h : EntryComplete db i e) :
+    EntryOK db i e := by
+  obtain ⟨p, outs, L, h1, h2, h3, h4, h5⟩ := h
+  exact ⟨p, outs, L, h1, h2, h3, h4, fun n v hv => by rw [← h5 n]; exact hv⟩
+
+structure FileOK (db : Db) (F : File) : Prop where
+  idx : (F.map (·.1)).Nodup
+  ok : ∀ ie ∈ F, EntryOK db ie.1 ie.2
+
+theorem setEntry_keys (F : File) (i : Nat) (e : FEntry) : (setEntry F i e).map (·.1) = F.map (·.1) := by
+  induction F with
+  | nil => rfl
+  | cons je t ih =>
+    obtain ⟨j, e0⟩ := je
+    simp only [setEntry, List.map_cons] at ih ⊢
+    by_cases h : j = i <;> simp [h, ih]
+
+theorem alook_setEntry (F : File) (i : Nat) (e : FEntry) (j : Nat) :
+    alook j (setEntry F i e) = if j = i then (alook i F).map (fun _ => e) else alook j F := by
+  induction F with
+  | nil => simp [setEntry]
+  | cons ke t ih =>
+    obtain ⟨k, e0⟩ := ke
+    simp only [setEntry, List.map_cons] at ih ⊢
+    by_cases hk : k = i
+    · subst hk
+      simp only [if_true, alook_cons]
+      by_cases hj : k = j
+      · subst hj; simp
+      · have : ¬ j = k := fun h => hj h.symm
+        simp [hj, this, ih]
+    · simp only [hk, if_false, alook_cons]
+      by_cases hj : k = j
+      · subst hj; simp [hk]
+      · simp [hj, ih]
+
+theorem mem_setEntry {F : File} {i : Nat} {e : FEntry} {je : Nat × FEntry} (h : je ∈ setEntry F i e) :
+    je = (i, e) ∨ (je ∈ F ∧ je.1 ≠ i) := by
+  simp only [setEntry, List.mem_map] at h
+  obtain ⟨ke, hke, rfl⟩ := h
+  by_cases hk : ke.1 = i
+  · simp [hk]
+  · simp [hk, hke]
+
+/-- One iteration of the append loop of `to_file`. -/
+theorem appendStep (db : Db) (wf : DbWF db) (F : File) (hF : FileOK db F) (p : Pt) (i : Nat)
+    (outs : Outs) (hi : db[i]? = some (p, outs)) :
+    ∃ F' e',
+      appendOne F i p outs = some F' ∧
+      FileOK db F' ∧ alook i F' = some e' ∧ EntryComplete db i e' ∧
+      (∀ j, j ≠ i → alook j F' = alook j F) := by
+  have ndo := dbWF_getElem wf hi
+  unfold appendOne
+  cases hl : alook i F with
+  | some e =>
+    obtain ⟨p', outs', L, h1, h2, h3, h4, h5⟩ := hF.ok (i, e) (alook_mem hl)
+    simp only at h1 h2
+    rw [hi] at h1
+    injection h1 with h1; injection h1 with hp ho; subst hp; subst ho
+    have hsub : ∀ n ∈ L.map (·.1), n ∈ outs.map (·.1) := by
+      intro n hn
+      obtain ⟨v, hv⟩ := alook_isSome_of_mem_keys hn
+      exact List.mem_map.mpr ⟨(n, v), alook_mem (h5 n v hv), rfl⟩
+    obtain ⟨e', ha, hx, hlay⟩ := appendOutput_layout e L outs h3 h4 hsub ndo
+    set missing := outs.filter (fun nv => !((L.map (·.1)).contains nv.1)) with hmiss
+    have ndm : (missing.map (·.1)).Nodup := (List.filter_sublist.map _).nodup ndo
+    have ndL' : ((L ++ sortOuts missing).map (·.1)).Nodup := by
+      rw [List.map_append]
+      refine List.nodup_append.mpr ⟨h4, sortOuts_keys_nodup ndm, ?_⟩
+      intro a ha b hb hab
+      subst hab
+      rw [mem_sortOuts_keys] at hb
+      obtain ⟨nv, hnv, e1⟩ := List.mem_map.mp hb
+      have := (List.mem_filter.mp hnv).2
+      simp only [Bool.not_eq_true', List.contains_eq_mem, decide_eq_false_iff_not] at this
+      exact this (e1 ▸ ha)
+    have heq : OutsEq (L ++ sortOuts missing) outs := by
+      intro n
+      rw [alook_append, alook_sortOuts ndm, hmiss, alook_filter_keys (fun k => !((L.map (·.1)).contains k))]
+      cases hn : alook n L with
+      | some v => simp [h5 n v hn]
+      | none =>
+        have : n ∉ L.map (·.1) := alook_eq_none.mp hn
+        simp [this]
+    have hcomp : EntryComplete db i e' := ⟨p, outs, _, hi, by rw [hx, h2], hlay, ndL', heq⟩
+    refine ⟨setEntry F i e', e', by simp [ha], ⟨by rw [setEntry_keys]; exact hF.idx, ?_⟩, ?_, hcomp, ?_⟩
+    · intro je hje
+      rcases mem_setEntry hje with h | ⟨h, _⟩
+      · subst h; exact hcomp.ok
+      · exact hF.ok je h
+    · rw [alook_setEntry]; simp [hl]
+    · intro j hj; rw [alook_setEntry]; simp [hj]
+  | none =>
+    obtain ⟨e', hc, hx, hlay⟩ := createEntry_layout p outs ndo
+    have hcomp : EntryComplete db i e' :=
+      ⟨p, outs, _, hi, hx, hlay, sortOuts_keys_nodup ndo, fun n => alook_sortOuts ndo n⟩
+    have hni : i ∉ F.map (·.1) := alook_eq_none.mp hl
+    refine ⟨F ++ [(i, e')], e', by simp [hc], ⟨?_, ?_⟩, ?_, hcomp, ?_⟩
+    · rw [List.map_append]
+      exact List.nodup_append.mpr ⟨hF.idx, by simp, by
+        intro a ha b hb hab
+        simp only [List.map_cons, List.map_nil, List.mem_singleton] at hb
+        subst hab; subst hb; exact hni ha⟩
+    · intro je hje
+      rcases List.mem_append.mp hje with h | h
+      · exact hF.ok je h
+      · simp only [List.mem_singleton] at h; subst h; exact hcomp.ok
+    · rw [alook_append, hl]; simp [alook_cons]
+    · intro j hj
+      rw [alook_append]
+      cases alook j F with
+      | some _ => rfl
+      | none =>
+        have : ¬ i = j := fun h => hj h.symm
+        simp [alook_cons, this]
+
+/-- The append loop of `to_file` over a list of pending points of the database: it never raises,
+    keeps the file consistent, completes every entry it touches and leaves the others alone. -/
+theorem appendPending_spec (db : Db) (wf : DbWF db) (ps : List Pt)
+    (hps : ∀ p ∈ ps, p ∈ db.map (·.1)) (F : File) (hF : FileOK db F) :
+    ∃ F', appendPending db F ps = some F' ∧ FileOK db F' ∧
+      (∀ j, (∃ p ∈ ps, dbIndex p db = some j) → ∃ e, alook j F' = some e ∧ EntryComplete db j e) ∧
+      (∀ j, (¬ ∃ p ∈ ps, dbIndex p db = some j) → alook j F' = alook j F) := by
+  induction ps generalizing F with
+  | nil => exact ⟨F, rfl, hF, by simp, by simp⟩
+  | cons p ps ih =>
+    obtain ⟨i, hi⟩ := dbIndex_of_mem (hps p (by simp))
+    obtain ⟨outs, hget, hlook⟩ := dbIndex_spec hi
+    obtain ⟨F1, e1, hstep, hF1, hl1, hc1, hother⟩ := appendStep db wf F hF p i outs hget
+    obtain ⟨F', hrun, hF', htouched, huntouched⟩ :=
+      ih (fun q hq => hps q (List.mem_cons_of_mem _ hq)) F1 hF1
+    refine ⟨F', ?_, hF', ?_, ?_⟩
+    · simp only [appendPending, hi, hlook, hstep, hrun]
+    · intro j hj
+      by_cases hlater : ∃ q ∈ ps, dbIndex q db = some j
+      · exact htouched j hlater
+      · obtain ⟨q, hq, hqj⟩ := hj
+        rcases List.mem_cons.mp hq with rfl | hq'
+        · have : i = j := by rw [hi] at hqj; exact Option.some.inj hqj
+          subst this
+          exact ⟨e1, by rw [huntouched i hlater]; exact hl1, hc1⟩
+        · exact absurd ⟨q, hq', hqj⟩ hlater
+    · intro j hj
+      have hlater : ¬ ∃ q ∈ ps, dbIndex q db = some j := fun ⟨q, hq, hqj⟩ =>
+        hj ⟨q, List.mem_cons_of_mem _ hq, hqj⟩
+      have hne : j ≠ i := fun e => hj ⟨p, by simp, e ▸ hi⟩
+      rw [huntouched j hlater, hother j hne]
+
+/-! ### Full export -/
+
+theorem exportFrom_spec (db : Db) (nd : ∀ po ∈ db, (po.2.map (·.1)).Nodup) (k : Nat) :
+    ∃ F, exportFrom k db = some F ∧ F.map (·.1) = List.range' k db.length ∧
+      ∀ i p outs, db[i]? = some (p, outs) →
+        ∃ e, (k + i, e) ∈ F ∧ e.x = p ∧ Layout e (sortOuts outs) := by
+  induction db generalizing k with
+  | nil => exact ⟨[], rfl, rfl, by simp⟩
+  | cons po t ih =>
+    obtain ⟨p, o⟩ := po
+    obtain ⟨e, he, hx, hl⟩ := createEntry_layout p o (nd (p, o) (by simp))
+    obtain ⟨R, hR, hk, hall⟩ := ih (fun q hq => nd q (List.mem_cons_of_mem _ hq)) (k + 1)
+    refine ⟨(k, e) :: R, by simp [exportFrom, he, hR], by simp [hk, List.range'_succ], ?_⟩
+    intro i p' outs' hget
+    cases i with
+    | zero =>
+      simp only [List.getElem?_cons_zero, Option.some.injEq, Prod.mk.injEq] at hget
+      obtain ⟨rfl, rfl⟩ := hget
+      exact ⟨e, by simp, hx, hl⟩
+    | succ j =>
+      simp only [List.getElem?_cons_succ] at hget
+      obtain ⟨e', hm, hx', hl'⟩ := hall j p' outs' hget
+      exact ⟨e', by
+        have : k + (j + 1) = k + 1 + j := by omega
+        rw [this]; exact List.mem_cons_of_mem _ hm, hx', hl'⟩
+
+/-- A single export of a well-formed database never raises and writes, for every index, a complete
+    entry. -/
+theorem exportAll_spec (db : Db) (wf : DbWF db) :
+    ∃ F, exportAll db = some F ∧ FileOK db F ∧ F.map (·.1) = List.range db.length ∧
+      ∀ i p outs, db[i]? = some (p, outs) → ∃ e, alook i F = some e ∧ EntryComplete db i e := by
+  obtain ⟨F, hF, hk, hall⟩ := exportFrom_spec db wf.names 0
+  have hnd : (F.map (·.1)).Nodup := by
+    rw [hk, ← List.range_eq_range']; exact List.nodup_range
+  have hcomp : ∀ i p outs, db[i]? = some (p, outs) → ∃ e, alook i F = some e ∧ EntryComplete db i e := by
+    intro i p outs hget
+    obtain ⟨e, hm, hx, hl⟩ := hall i p outs hget
+    rw [Nat.zero_add] at hm
+    have ndo := dbWF_getElem wf hget
+    exact ⟨e, alook_of_mem_nodup hnd hm,
+      ⟨p, outs, _, hget, hx, hl, sortOuts_keys_nodup ndo, fun n => alook_sortOuts ndo n⟩⟩
+  refine ⟨F, hF, ⟨hnd, ?_⟩, by rw [hk, List.range_eq_range'], hcomp⟩
+  intro ie hie
+  have hi : ie.1 ∈ List.range' 0 db.length := by rw [← hk]; exact List.mem_map.mpr ⟨ie, hie, rfl⟩
+  have hlt : ie.1 < db.length := by simpa [List.mem_range'] using hi
+  obtain ⟨e, he, hc⟩ := hcomp ie.1 db[ie.1].1 db[ie.1].2 (by simp [hlt])
+  have : alook ie.1 F = some ie.2 := alook_of_mem_nodup hnd (by simpa using hie)
+  rw [this] at he
+  injection he with he; subst he
+  exact hc.ok
+
+/-! ### Reading a complete file -/
+
+theorem exists_list_of_forall {α : Type} (n : Nat) (P : Nat → α → Prop)
+    (h : ∀ i, i < n → ∃ a, P i a) :
+    ∃ l : List α, l.length = n ∧ ∀ i (hi : i < l.length), P i l[i] := by
+  induction n with
+  | zero => exact ⟨[], rfl, by simp⟩
+  | succ m ih =>
+    obtain ⟨l, hl, hp⟩ := ih (fun i hi => h i (by omega))
+    obtain ⟨a, ha⟩ := h m (by omega)
+    refine ⟨l ++ [a], by simp [hl], ?_⟩
+    intro i hi
+    by_cases him : i < l.length
+    · rw [List.getElem_append_left him]; exact hp i him
+    · have : i = m := by simp [hl] at hi him; omega
+      subst this
+      rw [List.getElem_append_right (by omega)]
+      simpa [hl] using ha
+
+theorem dbStore_new {db : Db} {p : Pt} (h : p ∉ db.map (·.1)) (o : Outs) :
+    dbStore db p o = db ++ [(p, o)] := by
+  induction db with
+  | nil => rfl
+  | cons qc t ih =>
+    obtain ⟨q, c⟩ := qc
+    simp only [List.map_cons, List.mem_cons, not_or] at h
+    have : ¬ q = p := fun e => h.1 e.symm
+    simp [dbStore, this, ih h.2]
+
+theorem foldl_dbStore (acc ds : Db) (nd : ((acc ++ ds).map (·.1)).Nodup) :
+    ds.foldl (fun db po => dbStore db po.1 po.2) acc = acc ++ ds := by
+  induction ds generalizing acc with
+  | nil => simp
+  | cons po t ih =>
+    obtain ⟨p, o⟩ := po
+    have hp : p ∉ acc.map (·.1) := by
+      simp only [List.map_append, List.map_cons] at nd
+      have := (List.nodup_append.mp nd).2.2
+      intro hmem
+      exact this p hmem p (by simp) rfl
+    simp only [List.foldl_cons]
+    rw [dbStore_new hp, ih (acc ++ [(p, o)]) (by simpa using nd)]
+    simp
+
+/-- A file holding one complete entry for every database index (and nothing else) reloads to the
+    database content: same points in the same order, same names, values, kinds and shapes. -/
+theorem readFile_complete (db : Db) (wf : DbWF db) (F : File) (hF : FileOK db F)
+    (hall : ∀ i p outs, db[i]? = some (p, outs) → ∃ e, alook i F = some e ∧ EntryComplete db i e) :
+    ∃ d, readFile F = some d ∧ DbEq d db := by
+  -- the file has exactly `db.length` members
+  have hlen : F.length = db.length := by
+    have h1 : (F.map (·.1)).Subperm (List.range db.length) := by
+      apply List.subperm_of_subset hF.idx
+      intro i hi
+      obtain ⟨ie, hie, rfl⟩ := List.mem_map.mp hi
+      obtain ⟨p, outs, L, hget, _⟩ := hF.ok ie hie
+      have : ie.1 < db.length := by
+        by_contra hn
+        rw [List.getElem?_eq_none (by omega)] at hget; cases hget
+      exact List.mem_range.mpr this
+    have h2 : (List.range db.length).Subperm (F.map (·.1)) := by
+      apply List.subperm_of_subset List.nodup_range
+      intro i hi
+      have hi' := List.mem_range.mp hi
+      obtain ⟨e, he, _⟩ := hall i db[i].1 db[i].2 (by simp [hi'])
+      exact List.mem_map.mpr ⟨(i, e), alook_mem he, rfl⟩
+    have := h1.length_le; have := h2.length_le
+    simp only [List.length_map, List.length_range] at *
+    omega
+  -- choose, for every index, the entry and its decoded outputs
+  obtain ⟨cs, hcl, hcs⟩ := exists_list_of_forall db.length
+    (fun i (c : FEntry × Outs) => alook i F = some c.1 ∧ decodeEntry c.1 = some c.2 ∧
+      ∃ p outs, db[i]? = some (p, outs) ∧ c.1.x = p ∧ OutsEq c.2 outs)
+    (by
+      intro i hi
+      obtain ⟨e, he, p, outs, L, hget, hx, hlay, ndL, heq⟩ := hall i db[i].1 db[i].2 (by simp [hi])
+      exact ⟨(e, scalPairs L ++ arrPairs L), he, decodeEntry_layout e L hlay ndL, p, outs, hget, hx,
+        fun n => by rw [alook_decoded L ndL n]; exact heq n⟩)
+  have h1 : (List.range F.length).map (fun i => alook i F) = (cs.map (·.1)).map some := by
+    apply List.ext_getElem (by simp [hlen, hcl])
+    intro i h1 h2
+    simp only [List.getElem_map, List.getElem_range]
+    exact (hcs i (by simpa [hlen, hcl] using h1)).1
+  have h2 : (cs.map (·.1)).map (fun e => (decodeEntry e).map (fun o => (e.x, o)))
+      = (cs.map (fun c => (c.1.x, c.2))).map some := by
+    apply List.ext_getElem (by simp)
+    intro i h1 h2
+    simp only [List.getElem_map]
+    rw [(hcs i (by simpa using h1)).2.1]; rfl
+  have hds : DbEq (cs.map (fun c => (c.1.x, c.2))) db := by
+    unfold DbEq
+    rw [List.forall₂_iff_get]
+    refine ⟨by simp [hcl], ?_⟩
+    intro i h1 h2
+    have hi : i < cs.length := by simpa using h1
+    obtain ⟨_, _, p, outs, hget, hx, heq⟩ := hcs i hi
+    have hdb : db[i] = (p, outs) := by
+      have := List.getElem?_eq_getElem h2
+      rw [hget] at this; exact (Option.some.inj this).symm
+    simp only [List.get_eq_getElem, List.getElem_map, hdb]
+    exact ⟨hx, heq⟩
+  have hpts : (cs.map (fun c => (c.1.x, c.2))).map (·.1) = db.map (·.1) := hds.points
+  refine ⟨cs.map (fun c => (c.1.x, c.2)), ?_, hds⟩
+  unfold readFile
+  rw [h1, optAll_map_some]
+  simp only [h2, optAll_map_some]
+  rw [foldl_dbStore [] _ (by simpa [hpts] using wf.pts)]
+  simp
+
+/-! ### `Database.store` and the pending buffer -/
+
+theorem dbStore_keys (db : Db) (p : Pt) (o : Outs) :
+    (dbStore db p o).map (·.1) = if p ∈ db.map (·.1) then db.map (·.1) else db.map (·.1) ++ [p] := by
+  induction db with
+  | nil => simp [dbStore]
+  | cons qc t ih =>
+    obtain ⟨q, c⟩ := qc
+    unfold dbStore
+    by_cases e : q = p
+    · subst e; simp
+    · have e' : ¬ p = q := fun h => e h.symm
+      simp only [e, if_false, List.map_cons, ih, List.mem_cons, e', false_or]
+      split <;> simp
+
+theorem dbStore_getElem_old {db : Db} (nd : (db.map (·.1)).Nodup) (p : Pt) (o : Outs) {j : Nat}
+    {q : Pt} {c : Outs} (h : db[j]? = some (q, c)) :
+    (dbStore db p o)[j]? = some (q, if q = p then updateOuts c o else c) := by
+  induction db generalizing j with
+  | nil => simp at h
+  | cons q0c0 t ih =>
+    obtain ⟨q0, c0⟩ := q0c0
+    simp only [List.map_cons, List.nodup_cons] at nd
+    unfold dbStore
+    by_cases e : q0 = p
+    · subst e
+      simp only [if_true]
+      cases j with
+      | zero =>
+        simp only [List.getElem?_cons_zero, Option.some.injEq, Prod.mk.injEq] at h ⊢
+        obtain ⟨rfl, rfl⟩ := h; simp
+      | succ j =>
+        simp only [List.getElem?_cons_succ] at h ⊢
+        have hq : q ∈ t.map (·.1) := List.mem_map.mpr ⟨(q, c), List.mem_of_getElem? h, rfl⟩
+        have : ¬ q = q0 := fun e => nd.1 (e ▸ hq)
+        simp [h, this]
+    · simp only [e, if_false]
+      cases j with
+      | zero =>
+        simp only [List.getElem?_cons_zero, Option.some.injEq, Prod.mk.injEq] at h ⊢
+        obtain ⟨rfl, rfl⟩ := h; simp [e]
+      | succ j =>
+        simp only [List.getElem?_cons_succ] at h ⊢
+        exact ih nd.2 h
+
+theorem dbStore_getElem_new {db : Db} (nd : (db.map (·.1)).Nodup) (p : Pt) (o : Outs) {j : Nat}
+    {q : Pt} {c' : Outs} (h : (dbStore db p o)[j]? = some (q, c')) :
+    (∃ c, db[j]? = some (q, c) ∧ c' = if q = p then updateOuts c o else c) ∨
+      (j = db.length ∧ q = p ∧ c' = o ∧ p ∉ db.map (·.1)) := by
+  induction db generalizing j with
+  | nil =>
+    cases j with
+    | zero =>
+      simp only [dbStore, List.getElem?_cons_zero, Option.some.injEq, Prod.mk.injEq] at h
+      exact Or.inr ⟨rfl, h.1.symm, h.2.symm, by simp⟩
+    | succ j => simp [dbStore] at h
+  | cons q0c0 t ih =>
+    obtain ⟨q0, c0⟩ := q0c0
+    simp only [List.map_cons, List.nodup_cons] at nd
+    unfold dbStore at h
+    by_cases e : q0 = p
+    · subst e
+      simp only [if_true] at h
+      cases j with
+      | zero =>
+        simp only [List.getElem?_cons_zero, Option.some.injEq, Prod.mk.injEq] at h
+        obtain ⟨rfl, rfl⟩ := h
+        exact Or.inl ⟨c0, by simp, by simp⟩
+      | succ j =>
+        simp only [List.getElem?_cons_succ] at h
+        have hq : q ∈ t.map (·.1) := List.mem_map.mpr ⟨(q, c'), List.mem_of_getElem? h, rfl⟩
+        have hne : ¬ q = q0 := fun e => nd.1 (e ▸ hq)
+        exact Or.inl ⟨c', by simpa using h, by simp [hne]⟩
+    · simp only [e, if_false] at h
+      cases j with
+      | zero =>
+        simp only [List.getElem?_cons_zero, Option.some.injEq, Prod.mk.injEq] at h
+        obtain ⟨rfl, rfl⟩ := h
+        exact Or.inl ⟨c0, by simp, by simp [e]⟩
+      | succ j =>
+        simp only [List.getElem?_cons_succ] at h
+        rcases ih nd.2 h with ⟨c, hc, hc'⟩ | ⟨hj, hq, hc, hp⟩
+        · exact Or.inl ⟨c, by simpa using hc, hc'⟩
+        · refine Or.inr ⟨by simp [hj], hq, hc, ?_⟩
+          simp only [List.map_cons, List.mem_cons, not_or]
+          exact ⟨fun h => e h.symm, hp⟩
+
+theorem dbStore_wf {db : Db} (wf : DbWF db) (p : Pt) {o : Outs} (ndo : (o.map (·.1)).Nodup) :
+    DbWF (dbStore db p o) := by
+  refine ⟨?_, ?_⟩
+  · rw [dbStore_keys]
+    split
+    · exact wf.pts
+    · rename_i h
+      exact List.nodup_append.mpr ⟨wf.pts, by simp, by
+        intro a ha b hb hab
+        simp only [List.mem_singleton] at hb
+        subst hab; subst hb; exact h ha⟩
+  · intro qc hqc
+    obtain ⟨j, hj, hget⟩ := List.getElem_of_mem hqc
+    have hget' : (dbStore db p o)[j]? = some (qc.1, qc.2) := by
+      rw [List.getElem?_eq_getElem hj, hget]
+    rcases dbStore_getElem_new wf.pts p o hget' with ⟨c, hc, hc'⟩ | ⟨_, _, hc, _⟩
+    · have ndc := dbWF_getElem wf hc
+      rw [hc']
+      split
+      · exact updateOuts_nodup ndc o
+      · exact ndc
+    · rw [hc]; exact ndo
+
+section pending
+variable {κ : Type} [DecidableEq κ] (H : Pt → κ)
+
+theorem addPending_mem_self (pend : List (κ × Pt)) (p : Pt) :
+    (H p, p) ∈ addPending H pend p := by
+  induction pend with
+  | nil => simp [addPending]
+  | cons hq t ih =>
+    obtain ⟨h, q⟩ := hq
+    unfold addPending
+    by_cases e : h = H p
+    · simp [e]
+    · simp [e, ih]
+
+theorem addPending_sub {pend : List (κ × Pt)} {p : Pt} {hq : κ × Pt}
+    (h : hq ∈ addPending H pend p) : hq ∈ pend ∨ hq = (H p, p) := by
+  induction pend with
+  | nil => simp [addPending] at h; exact Or.inr h
+  | cons h0q0 t ih =>
+    obtain ⟨h0, q0⟩ := h0q0
+    unfold addPending at h
+    by_cases e : h0 = H p
+    · simp only [e, if_true, List.mem_cons] at h
+      rcases h with h | h
+      · exact Or.inr h
+      · exact Or.inl (List.mem_cons_of_mem _ h)
+    · simp only [e, if_false, List.mem_cons] at h
+      rcases h with h | h
+      · exact Or.inl (by simp [h])
+      · rcases ih h with h | h
+        · exact Or.inl (List.mem_cons_of_mem _ h)
+        · exact Or.inr h
+
+theorem addPending_keep {pend : List (κ × Pt)} {p : Pt} {hq : κ × Pt}
+    (h : hq ∈ pend) (hne : hq.1 ≠ H p) : hq ∈ addPending H pend p := by
+  induction pend with
+  | nil => cases h
+  | cons h0q0 t ih =>
+    obtain ⟨h0, q0⟩ := h0q0
+    unfold addPending
+    rcases List.mem_cons.mp h with h | h
+    · subst h
+      simp [hne]
+    · by_cases e : h0 = H p
+      · simp [e, h]
+      · simp only [e, if_false, List.mem_cons]
+        exact Or.inr (ih h)
+
+end pending
 
 end GV.C11
